@@ -1419,11 +1419,18 @@ def run_datasets(ctx):
 # ============================================================== history probes (no model: "the result is a
 # function of the current state / inputs only", see tools/HARDENING.md)
 def run_probes(ctx):
-    probe_collections(ctx)
-    probe_keys(ctx)
-    probe_stages(ctx)
-    probe_config(ctx)
-    probe_datasets(ctx)
+    import traceback
+    for part in (probe_collections, probe_keys, probe_stages, probe_config, probe_datasets):
+        try:
+            part(ctx)
+        except Exception as ex:
+            # a probe only performs legal operations: an exception escaping from the implementation is a
+            # misbehaviour of its own (and must not crash the check)
+            tb = traceback.extract_tb(ex.__traceback__)
+            where = next((f'{os.path.basename(fr.filename)}:{fr.name}' for fr in reversed(tb) if 'skyllh' in fr.filename), '?')
+            ctx.violation(part.__name__, f'legal-operation-raised-{type(ex).__name__}',
+                          f'{type(ex).__name__}: {ex} (raised in {where})',
+                          case={'kind': 'probe', 'part': part.__name__})
 
 
 def _coll_obs(c, names):
